@@ -23,7 +23,7 @@ TOL_F = 1e-6
 _MATS = {}
 
 RULE = (
-    "states = (kind, heavyness, process, scheme, PTO, Q2 -> n_f) cells, each with four real runs (RenScaleVar x FactScaleVar) at 4 x points, plus per-n_f 'moments' states; "
+    "states = (kind, heavyness, process, scheme, PTO, Q2 -> n_f) cells, each with four real runs (RenScaleVar x FactScaleVar) at 4 x points, plus per-n_f 'moments' states and 'multi' states (one runner with points in several n_f regions: the splitting-operator cache is shared); "
     "mu_R identities are checked on all order keys at 1e-12, mu_F identities against reference DGLAP operators at 1e-6 of the sum of absolute terms (measured 1.9e-8), switch semantics bit-for-bit; "
     "non-trivial = the all-on run has a non-zero scale-variation key and (for mu_F) the prediction is non-zero"
 )
@@ -62,6 +62,12 @@ def states(tier, seed):
             out.append(st)
     for nf in (3, 4, 5, 6):
         out.append({"t": "moments", "nf": nf})
+    # several n_f regions inside ONE runner (the splitting-operator cache of the scale-variation manager is shared by all points and observables)
+    multis = [("NC", 2, ["F2_total", "FL_total"], [2.0, 10.0, 30.0]), ("CC", 2, ["F3_total", "F2_light"], [30.0, 10.0, 2.0]), ("EM", 1, ["FL_total", "F2_total"], [30.0, 2.0])]
+    if tier == "thorough":
+        multis += [("NC", 2, ["g1_total", "F2_total"], [1e5, 4.0, 30.0]), ("NC", 3, ["F2_light"], [10.0, 30.0]), ("CC", 2, ["FL_total", "F2_total", "F3_total"], [2.0, 1e5])]
+    for proc, pto, obs, q2s in multis:
+        out.append({"t": "multi", "process": proc, "scheme": "ZM-VFNS", "pto": pto, "obs": obs, "Q2s": q2s})
     return out
 
 
@@ -102,10 +108,73 @@ def _v(st, what, key, msg):
     return {"fp": fp, "fpkey": {"cls": what, "key": str(key), "kind": st.get("kind"), "process": st.get("process"), "scheme": st.get("scheme"), "heavyness": st.get("heavyness")}, "msg": msg}
 
 
+def _check_point(st, T, nf, x, desc):
+    """mu_R / mu_F identities for one kinematic point; T: key -> values tensor. Returns (viol, nontrivial, worstR, worstF) or None (non-finite)."""
+    b0, b1 = ref_rge.beta0(nf), ref_rge.beta1(nf)
+    viol = []
+    nontrivial = False
+    worstR = worstF = 0.0
+    if not all(np.all(np.isfinite(v)) for v in T.values()):
+        return None
+    zero = np.zeros_like(T[(0, 0, 0, 0)])
+    g = lambda k: T.get(k, zero)
+    # ---- oracle 1a: mu_R identities on output keys
+    preds = {}
+    for j in range(0, 4):
+        preds[(2, 0, 1, j)] = (-b0 * g((1, 0, 0, j)), [b0 * np.abs(g((1, 0, 0, j)))])
+        preds[(3, 0, 1, j)] = (-b1 * g((1, 0, 0, j)) - 2 * b0 * g((2, 0, 0, j)), [b1 * np.abs(g((1, 0, 0, j))), 2 * b0 * np.abs(g((2, 0, 0, j)))])
+        preds[(3, 0, 2, j)] = (b0 * b0 * g((1, 0, 0, j)), [b0 * b0 * np.abs(g((1, 0, 0, j)))])
+    for key, (pred, terms) in preds.items():
+        if key[0] > st["pto"]:
+            continue
+        if key not in T:
+            if np.any(pred != 0):
+                viol.append(_v(st, "muR-key-missing", key, f"{desc}: key {key} missing but the RGE predicts a non-zero tensor"))
+            continue
+        sc = sum(terms) + np.abs(T[key])
+        gmax = sc.max() if sc.size else 0.0
+        d = np.abs(T[key] - pred)
+        if gmax > 0:
+            worstR = max(worstR, float(d.max() / gmax))
+            nontrivial = True
+        if np.any(d > TOL_R * (sc + gmax)):
+            idx = np.unravel_index(np.argmax(d), d.shape)
+            viol.append(_v(st, "muR-rge", key, f"{desc} x={x}: key {key} [pid {yrun.PIDS[idx[0]]}, j={idx[1]}] = {T[key][idx]:.10g}, mu_R RGE from lower keys gives {pred[idx]:.10g}"))
+    # ---- oracle 1b: mu_F identities with reference DGLAP operators
+    ops = _mats(nf)
+    c0 = ref_rge.strip_heavy(g((0, 0, 0, 0)), nf)
+    c1 = ref_rge.strip_heavy(g((1, 0, 0, 0)), nf)
+    fpreds = {(1, 0, 0, 1): ops["P0"].apply(c0)}
+    if st["pto"] >= 2:
+        fpreds[(2, 0, 0, 1)] = ops["P0"].apply(c1) + ops["P1"].apply(c0)
+        fpreds[(2, 0, 0, 2)] = 0.5 * (ops["P0P0"].apply(c0) + b0 * ops["P0"].apply(c0))
+    absops = None
+    for key, pred in fpreds.items():
+        if key not in T:
+            viol.append(_v(st, "muF-key-missing", key, f"{desc}: key {key} missing"))
+            continue
+        val = T[key]
+        sc = np.abs(val) + np.abs(pred)
+        gmax = sc.max() if sc.size else 0.0
+        d = np.abs(val - pred)
+        if gmax > 0:
+            worstF = max(worstF, float(d.max() / gmax))
+            if np.any(pred != 0):
+                nontrivial = True
+        if np.any(d > TOL_F * (sc + gmax)):
+            idx = np.unravel_index(np.argmax(d), d.shape)
+            viol.append(_v(st, "muF-rge", key, f"{desc} x={x}: key {key} [pid {yrun.PIDS[idx[0]]}, j={idx[1]}] = {val[idx]:.10g}, DGLAP reference gives {pred[idx]:.10g} (|delta|={d[idx]:.3e})"))
+        hr = ref_rge.heavy_rows(nf)
+        if np.any(val[hr] != 0):
+            viol.append(_v(st, "muF-on-heavy-rows", key, f"{desc} x={x}: key {key} has non-zero entries in heavy-quark (intrinsic) rows"))
+    return viol, nontrivial, worstR, worstF
+
 def execute(st):
     yrun.reset_memos()
     if st["t"] == "moments":
         return _moments(st)
+    if st["t"] == "multi":
+        return _multi(st)
     name = cards.obsname(st["kind"], st["heavyness"])
     obs = {name: [cards.kin(x, st["Q2"]) for x in XS]}
     runs = {}
@@ -124,59 +193,12 @@ def execute(st):
     desc = f"{name} {st['process']} {st['scheme']} pto={st['pto']} Q2={st['Q2']} (nf={nf})"
     for i, x in enumerate(XS):
         T = {k: v[0] for k, v in yrun.tensors(runs[(True, True)][name][i]).items()}
-        if not all(np.all(np.isfinite(v)) for v in T.values()):
+        r = _check_point(st, T, nf, x, desc)
+        if r is None:
             return {"violations": [], "nontrivial": False, "outcome": "excluded:nonfinite", "transitions": 4, "info": {"n_excluded_nonfinite": 1}}
-        zero = np.zeros_like(T[(0, 0, 0, 0)])
-        g = lambda k: T.get(k, zero)
-        # ---- oracle 1a: mu_R identities on output keys
-        preds = {}
-        for j in range(0, 4):
-            preds[(2, 0, 1, j)] = (-b0 * g((1, 0, 0, j)), [b0 * np.abs(g((1, 0, 0, j)))])
-            preds[(3, 0, 1, j)] = (-b1 * g((1, 0, 0, j)) - 2 * b0 * g((2, 0, 0, j)), [b1 * np.abs(g((1, 0, 0, j))), 2 * b0 * np.abs(g((2, 0, 0, j)))])
-            preds[(3, 0, 2, j)] = (b0 * b0 * g((1, 0, 0, j)), [b0 * b0 * np.abs(g((1, 0, 0, j)))])
-        for key, (pred, terms) in preds.items():
-            if key[0] > st["pto"]:
-                continue
-            if key not in T:
-                if np.any(pred != 0):
-                    viol.append(_v(st, "muR-key-missing", key, f"{desc}: key {key} missing but the RGE predicts a non-zero tensor"))
-                continue
-            sc = sum(terms) + np.abs(T[key])
-            gmax = sc.max() if sc.size else 0.0
-            d = np.abs(T[key] - pred)
-            if gmax > 0:
-                worstR = max(worstR, float(d.max() / gmax))
-                nontrivial = True
-            if np.any(d > TOL_R * (sc + gmax)):
-                idx = np.unravel_index(np.argmax(d), d.shape)
-                viol.append(_v(st, "muR-rge", key, f"{desc} x={x}: key {key} [pid {yrun.PIDS[idx[0]]}, j={idx[1]}] = {T[key][idx]:.10g}, mu_R RGE from lower keys gives {pred[idx]:.10g}"))
-        # ---- oracle 1b: mu_F identities with reference DGLAP operators
-        ops = _mats(nf)
-        c0 = ref_rge.strip_heavy(g((0, 0, 0, 0)), nf)
-        c1 = ref_rge.strip_heavy(g((1, 0, 0, 0)), nf)
-        fpreds = {(1, 0, 0, 1): ops["P0"].apply(c0)}
-        if st["pto"] >= 2:
-            fpreds[(2, 0, 0, 1)] = ops["P0"].apply(c1) + ops["P1"].apply(c0)
-            fpreds[(2, 0, 0, 2)] = 0.5 * (ops["P0P0"].apply(c0) + b0 * ops["P0"].apply(c0))
-        absops = None
-        for key, pred in fpreds.items():
-            if key not in T:
-                viol.append(_v(st, "muF-key-missing", key, f"{desc}: key {key} missing"))
-                continue
-            val = T[key]
-            sc = np.abs(val) + np.abs(pred)
-            gmax = sc.max() if sc.size else 0.0
-            d = np.abs(val - pred)
-            if gmax > 0:
-                worstF = max(worstF, float(d.max() / gmax))
-                if np.any(pred != 0):
-                    nontrivial = True
-            if np.any(d > TOL_F * (sc + gmax)):
-                idx = np.unravel_index(np.argmax(d), d.shape)
-                viol.append(_v(st, "muF-rge", key, f"{desc} x={x}: key {key} [pid {yrun.PIDS[idx[0]]}, j={idx[1]}] = {val[idx]:.10g}, DGLAP reference gives {pred[idx]:.10g} (|delta|={d[idx]:.3e})"))
-            hr = ref_rge.heavy_rows(nf)
-            if np.any(val[hr] != 0):
-                viol.append(_v(st, "muF-on-heavy-rows", key, f"{desc} x={x}: key {key} has non-zero entries in heavy-quark (intrinsic) rows"))
+        viol += r[0]
+        nontrivial = nontrivial or r[1]
+        worstR, worstF = max(worstR, r[2]), max(worstF, r[3])
         # ---- oracle 2: switches
         for (ren, fact), out in runs.items():
             if ren and fact:
@@ -206,6 +228,35 @@ def execute(st):
             seen.add(kk)
             uv.append(v)
     return {"violations": uv[:4], "nontrivial": nontrivial, "outcome": yrun.out_digest(runs[(True, True)]), "transitions": 4, "info": {"maxrel_muR": worstR, "maxrel_muF": worstF}}
+
+
+def _multi(st):
+    """points in several n_f regions inside one runner: every point must satisfy the identities with ITS n_f."""
+    obs = {o: [cards.kin(x, q2) for q2 in st["Q2s"] for x in (0.01, 0.3)] for o in st["obs"]}
+    c = {k: st[k] for k in ("process", "scheme", "pto")}
+    out, status = rel.try_run(c, obs)
+    if status != "ok":
+        return {"violations": [], "nontrivial": False, "outcome": status, "transitions": 1, "info": {"n_" + status.split(":")[0]: 1}}
+    viol = []
+    nontrivial = False
+    worstR = worstF = 0.0
+    for o in st["obs"]:
+        for i, kin in enumerate(obs[o]):
+            nf = 3 + sum(1 for m in (1.51, 4.92, 172.5) if m * m <= kin["Q2"])
+            T = {k: v[0] for k, v in yrun.tensors(out[o][i]).items()}
+            r = _check_point(dict(st, kind=o.split("_")[0], heavyness=o.split("_")[1]), T, nf, kin["x"], f"{o} {st['process']} ZM-VFNS pto={st['pto']} Q2={kin['Q2']} (nf={nf}) in a runner with Q2 in {st['Q2s']} and observables {st['obs']}")
+            if r is None:
+                continue
+            viol += r[0]
+            nontrivial = nontrivial or r[1]
+            worstR, worstF = max(worstR, r[2]), max(worstF, r[3])
+    seen, uv = set(), []
+    for v in viol:
+        kk = digest(v["fpkey"])
+        if kk not in seen:
+            seen.add(kk)
+            uv.append(v)
+    return {"violations": uv[:4], "nontrivial": nontrivial, "outcome": yrun.out_digest(out), "transitions": 1, "sub": sum(len(v) for v in obs.values()), "info": {"maxrel_muR": worstR, "maxrel_muF": worstF}}
 
 
 def _moments(st):
